@@ -53,6 +53,18 @@ type Case struct {
 	BlockLag int        `json:"block_lag"`
 	Peers    []PeerSpec `json:"peers"`
 	Events   []Event    `json:"events"`
+	// Hard: hard-coded filter-header checkpoints of the generated network
+	// (heights are multiples of the filter checkpoint interval, as on the
+	// real networks).
+	Hard []HardCk `json:"hard,omitempty"`
+}
+
+// HardCk is one hard-coded filter-header checkpoint. Match: its value is the
+// true filter header of the main branch's block at that height; otherwise a
+// value no chain can produce.
+type HardCk struct {
+	H     int  `json:"h"`
+	Match bool `json:"match"`
 }
 
 var provable = map[string]bool{"omit": true, "empty": true, "inconsistent": true, "unserved": true}
@@ -65,6 +77,14 @@ func genCase(big bool) func(t *rapid.T) Case {
 			base = rapid.IntRange(1001, 2600).Draw(t, "bigbase")
 		}
 		fut := rapid.IntRange(1, 25).Draw(t, "future")
+		// straddle: the chain starts just below the first filter checkpoint
+		// height and grows across it while the client is at the tip, so the
+		// filter header at that height is fetched by the at-tip path
+		straddle := big && kit.Uni(t, "straddle", 4) == 0
+		if straddle {
+			base = 1000 - rapid.IntRange(1, 30).Draw(t, "below")
+			fut = rapid.IntRange(3, 40).Draw(t, "future2")
+		}
 		ws := kit.WorldSpec{P: p, Seed: rapid.Uint64Range(0, 3).Draw(t, "wseed"), Base: base, Future: fut, Pace: 1, Tx: true}
 		nb := rapid.IntRange(0, 3).Draw(t, "nbranches")
 		for i := 0; i < nb; i++ {
@@ -84,10 +104,20 @@ func genCase(big bool) func(t *rapid.T) Case {
 		default:
 			c.FilterPrefill = rapid.IntRange(1, base).Draw(t, "fprefill")
 		}
-		if big && kit.Uni(t, "bigfpre", 3) != 0 {
+		if big && !straddle && kit.Uni(t, "bigfpre", 3) != 0 {
 			c.FilterPrefill = rapid.IntRange(-1, base-1000).Draw(t, "fprefillbig")
 			if c.FilterPrefill == 0 {
 				c.FilterPrefill = -1
+			}
+		}
+		if straddle {
+			c.FilterPrefill = base - kit.Pick(t, "sfpre", []int{0, 0, 1, 3, 20})
+		}
+		if big && kit.Uni(t, "hard", 2) == 0 {
+			for h := 1000; h <= base+fut; h += 1000 {
+				if straddle || rapid.Bool().Draw(t, "hardat") {
+					c.Hard = append(c.Hard, HardCk{H: h, Match: kit.Uni(t, "hardmatch", 4) != 0})
+				}
 			}
 		}
 		c.BlockLag = rapid.IntRange(0, 30).Draw(t, "blocklag")
@@ -151,6 +181,7 @@ type oracle struct {
 	// served hash
 	verified []struct{ blk, ent chainhash.Hash }
 	truthOK  bool // honest peer + only provable / ckptonly / silent liars
+	hard     map[uint32]chainhash.Hash
 }
 
 func (o *oracle) fail(sym, format string, a ...any) {
@@ -181,6 +212,13 @@ func (o *oracle) check(when string) bool {
 	if fsn.Hdrs[0] != o.w.Genesis.FHdr {
 		o.fail("genesis", "%s: genesis filter header differs", when)
 		return false
+	}
+	// every committed entry at a height with a hard-coded checkpoint equals it
+	for h, x := range o.hard {
+		if h <= fsn.Tip && fsn.Hdrs[h] != x {
+			o.fail("hard-checkpoint-violated", "%s: filter header committed at height %d is %v, the hard-coded filter-header checkpoint there is %v", when, h, fsn.Hdrs[h], x)
+			return false
+		}
 	}
 	for h := uint32(1); h <= fsn.Tip; h++ {
 		if int(h) < len(o.verified) && o.verified[h].blk == bsn.Hashes[h] && o.verified[h].ent == fsn.Hdrs[h] &&
@@ -260,6 +298,30 @@ func runCase(t *testing.T, c Case) kit.Verdict {
 		v.Class("peer:%s", p.Kind)
 	}
 	base := w.Node(0, c.World.Base)
+	for _, hc := range c.Hard {
+		n := w.Node(0, hc.H)
+		if n == nil {
+			continue
+		}
+		x := n.FHdr
+		if !hc.Match {
+			x = chainhash.HashH(append([]byte("no-such-filter-header"), x[:]...))
+			// every peer, the honest one included, contradicts the
+			// hard-coded value: the client may ban them all and must
+			// simply never commit that height
+			o.truthOK = false
+			v.Class("hard:mismatch")
+		} else {
+			v.Class("hard:match")
+		}
+		if o.hard == nil {
+			o.hard = map[uint32]chainhash.Hash{}
+		}
+		o.hard[uint32(hc.H)] = x
+	}
+	if c.World.Base < 1000 && c.World.Base+c.World.Future >= 1000 {
+		v.Class("world:straddles-first-checkpoint")
+	}
 	// created inside the bubble (AfterStart): blocking on a channel made
 	// outside it is not a durable block for synctest
 	var honestReady chan struct{}
@@ -271,7 +333,7 @@ func runCase(t *testing.T, c Case) kit.Verdict {
 			o.connected[i] = true
 		}
 	}
-	cfg := netsim.Config{World: w, NumPeers: len(c.Peers), Initial: initial, Prefill: c.World.Base - c.BlockLag, PrefillFilterTip: c.FilterPrefill,
+	cfg := netsim.Config{World: w, NumPeers: len(c.Peers), Initial: initial, Prefill: c.World.Base - c.BlockLag, PrefillFilterTip: c.FilterPrefill, HardCF: o.hard,
 		AfterStart: func(*netsim.Sim) { honestReady = make(chan struct{}) },
 		DialGate: func(i int) <-chan struct{} {
 			if i == 0 {
@@ -390,6 +452,14 @@ func runCase(t *testing.T, c Case) kit.Verdict {
 			}
 		}
 		_, ft, _ := s.CS.RegFilterHeaders.ChainTip()
+		for h := range o.hard {
+			if ft >= h {
+				v.Nontrivial = true
+				v.Class("hard:height-committed")
+			} else {
+				v.Class("hard:height-not-reached")
+			}
+		}
 		// Liars with a provable lie that was put on the wire while the
 		// honest peer was there must be banned by now.
 		for i, ps := range c.Peers {
